@@ -79,6 +79,31 @@ func checkProve(c proveCase) (h.Info, error) {
 	if err != nil || !bytes.Equal(mb, pi) {
 		return info, fmt.Errorf("MarshalBinary = %x, %v", mb, err)
 	}
+	// the hashes handed out belong to the caller: still the same after OTHER proofs were hashed
+	for round := 0; round < 3; round++ {
+		if _, err := vrf.ProofToHash(primerPi); err != nil {
+			return info, fmt.Errorf("ProofToHash(primer): %v", err)
+		}
+		var other vrf.Proof
+		if _, err := other.SetBytes(primerPi); err != nil {
+			return info, fmt.Errorf("SetBytes(primer): %v", err)
+		}
+		_ = other.Hash()
+	}
+	for i, held := range [][]byte{beta, b2, mb} {
+		want := wantBeta
+		if i == 2 {
+			want = wantPi
+		}
+		if !bytes.Equal(held, want) {
+			return info, fmt.Errorf("a value returned earlier for the proof of (seed %x, alpha %x) (0 = Verify's hash, 1 = ProofToHash, 2 = MarshalBinary: here %d) reads %x after other proofs were hashed; it was %x", []byte(c.Seed), []byte(c.Alpha), i, held, want)
+		}
+	}
+	b3 := proof.Hash()
+	_, _ = vrf.ProofToHash(primerPi)
+	if !bytes.Equal(b3, wantBeta) {
+		return info, fmt.Errorf("the slice returned by Proof.Hash for (seed %x, alpha %x) reads %x after another proof was hashed; it was %x", []byte(c.Seed), []byte(c.Alpha), b3, wantBeta)
+	}
 	// determinism, also after the caller overwrote everything the first call handed out
 	for i := range pi {
 		pi[i] ^= 0xff
